@@ -278,17 +278,17 @@ pub fn def() -> PropDef {
         subs: vec![
             Sub {
                 name: "url",
-                cases: |t| t.pick(100_000, 2_000_000),
+                cases: |t| t.pick(300_000, 4_000_000),
                 run: |ctx| run_proptest(ctx, "url", strategy(false), check_pure),
                 replay: |v| replay_case::<Case>(v, check_pure),
-                min_class: &[("announce-with-query", 0.3), ("announce-with-trailing-?", 0.08), ("hash-with-special-byte", 0.5), ("hash-non-utf8", 0.9)],
+                min_class: &[("announce-with-query", 0.2139), ("announce-with-trailing-?", 0.0718), ("hash-with-special-byte", 0.4468), ("hash-non-utf8", 0.5)],
             },
             Sub {
                 name: "wire",
-                cases: |t| t.pick(320, 10_000),
+                cases: |t| t.pick(800, 15_000),
                 run: |ctx| run_proptest(ctx, "wire", strategy(true), check_wire),
                 replay: |v| replay_case::<Case>(v, check_wire),
-                min_class: &[("announce-with-query", 0.3), ("hash-with-special-byte", 0.5)],
+                min_class: &[("announce-with-query", 0.2047), ("hash-with-special-byte", 0.4422)],
             },
         ],
     }
